@@ -53,3 +53,14 @@ prop("C15",
      level_text="Theorems for every address space and every pointer: GetString never panics, returns at most PATH_MAX NUL-free bytes that are exactly the tracee's bytes at that address; kernel-evaluated theorems on the regenerated tracer code that a tracee vanishing under any ptrace request (ESRCH) yields no verdict (never Runner Error / Disallowed Syscall) while a live set-regs failure still fails closed; differential on real memory and hostile real tracees",
      level_note="Trusted: Lean kernel; hand model of the string reader (differentially tied); kernel memory/ptrace assumptions; translator + Go-lite interpreter. Partial for real ptrace races (sampled)",
      technique="Lean 4 proofs (induction over the chunked read loop) + decide +kernel on regenerated Go-lite code + differential + hostile real runs")
+
+prop("C08",
+     trusted_base=["hand models Model/RLimit.lean (prepare, applyEntries, checkUsage, collect) tied to the regenerated Go-lite code by kernel-evaluated grids (C08_tie_*) and to the compiled code by the random differential",
+                   "kernel: prlimit64 sets exactly (cur,max); pipes deliver bytes in order; the collector goroutine's statement list is tied syntactically (C08_tie_buffer)"],
+     assumptions=["kernel accounting accuracy (utime, maxrss) and goroutine scheduling of the drain are observed by runs, not proved",
+                  "container.Execve returns measurements but has no time/memory bound of its own: usage bounds are checked for the ptrace and namespace runners",
+                  "that the child applies the prepared list in order with prlimit64 is shown by the real `report rlimits` runs here and by the launch-sequence theorems of C04/C07"],
+     not_covered="writer-faster-than-reader timing beyond the sampled volumes",
+     level_text="Theorems for every limit record (exactly one entry per configured resource with cur=max, CPU hard=max(hard,soft), resources pairwise distinct so in-order application gives every configured pair and leaves the rest inherited), every usage/bound tuple (strict comparisons, memory overrides time, measured values returned), every chunking of the output (at most cap bytes retained, a prefix, everything consumed); ties to the regenerated code evaluated in the kernel; differential + real runs in all three runners",
+     level_note="Trusted: Lean kernel; hand models tied by sampled kernel evaluation of regenerated code and random differential; kernel rlimit/pipe semantics assumed and sampled",
+     technique="Lean 4 proofs over all records/usages/streams + decide +kernel ties to regenerated Go-lite + differential + real runs")
